@@ -70,6 +70,20 @@ CHECKS = {
         "terminator/magic (full decoding is C03). Combinations that can yield a valid program are excluded.",
    technique="TLA+ process state machine checked by TLC; TLC-enumerated corruption cases run on the real "
              "executable; TLC trace acceptor decides each run"),
+ "C03": dict(
+   category="model_checking",
+   text="ObjFormats.tla transcribes the published formats (Intel HEX, S-record, WDC, UF2, raw binary, ELF32/64 "
+        "sections and .symtab) as decoders with their validity rules (lengths, checksums, magic words, block "
+        "numbering). TLC enumerates layouts of 1-3 disjoint segments at the 16/24/31/32-bit and 64 KiB boundaries "
+        "with lengths around the record/block sizes; the real code assembles each, writes 6 formats through "
+        "file_write() and loads them back through file_read(); the files are split into fields by pure lexers and "
+        "TLC decodes them and compares with the image, exported symbols and entry point of the same run.",
+   design_ref="DESIGN.md 4 C03",
+   note="Trusted: lexers in nv/tokenize.py, the image recorder of harness/m_file.cpp (elides zero runs on the loader "
+        "side). bin/elf/uf2 may hold zero fill within [low, high] rounded to the granule; the Pico block the uf2 writer "
+        "prepends is not program content; WDC is skipped above 24-bit addresses; macho/amiga are not content-checked.",
+   technique="TLA+ transcription of the file format specifications; TLC-enumerated layouts replayed through the "
+             "real writers/loaders; TLC decodes the tokenized files and decides"),
 }
 
 NOT_YET = "machinery for this property is not built yet in this revision (planned in DESIGN.md section 8)"
